@@ -286,6 +286,19 @@ KERNELS = [
     dict(name="GetKeyUnpackPad", props=["C11", "C17"], file="_gkdi.py", func="GetKey.unpack", loc=("assign", "padding"), typ="Int",
          subst={"target_sd_len": "n"}, params="(n : Int)", obl="(n : Nat)", call="(n : Int)", model="Py.negMod n 8",
          imports=["Model.Py"], unfold=["Py.negMod"]),
+    # _gkdi.compute_l2_key: the guard added by the fix (range, then cover)
+    dict(name="L2Range", props=["C02", "C05", "C10"], file="_gkdi.py", func="compute_l2_key", kind="prop",
+         loc=("if_containing", "all("), typ="Nat", subst={"request_l1": "r1", "request_l2": "r2", "l1": "a", "l2": "b"},
+         params="(r1 r2 a b : Nat)", obl="(r1 r2 a b : Nat)", call="r1 r2 a b", model="(31 < r1 ∨ 31 < r2 ∨ 31 < a ∨ 31 < b)",
+         imports=["Model.Chain"], unfold=[]),
+    dict(name="L2Cover", props=["C02", "C05", "C10"], file="_gkdi.py", func="compute_l2_key", kind="prop",
+         loc=("if_containing", "request_l1 > l1"), typ="Nat", subst={"request_l1": "r1", "request_l2": "r2", "l1": "a", "l2": "b"},
+         params="(r1 r2 a b : Nat)", obl="(r1 r2 a b : Nat)", call="r1 r2 a b", model="(a < r1 ∨ (a = r1 ∧ b < r2))",
+         imports=["Model.Chain"], unfold=[]),
+    dict(name="L2PreDec", props=["C02"], file="_gkdi.py", func="compute_l2_key", kind="prop",
+         loc=("if_containing", "l2 != 31 and"), typ="Nat", subst={"request_l1": "r1", "l1": "a", "l2": "b"},
+         params="(r1 a b : Nat)", obl="(r1 a b : Nat)", call="r1 a b", model="(b ≠ 31 ∧ a ≠ r1)",
+         imports=["Model.Chain"], unfold=[]),
     dict(name="TlvLowTag", props=["C07", "C06"], file="_asn1.py", func="_pack_asn1", kind="prop",
          loc=("if_containing", "tag_number"), typ="Nat", subst={"tag_number": "n"},
          params="(n : Nat)", obl="(n : Nat)", call="n", model="(n < 31)", imports=["Model.Asn1"],
